@@ -29,6 +29,14 @@ Step ==
                  ELSE LET r == Extract(cache, marks, bs)
                       IN cache' = r.cache /\ ready' = (IF r.ok /\ Len(r.cache) >= bs THEN 1 ELSE 0)
               /\ UNCHANGED <<bs, marks>>
+         [] Line.op = "cget" ->     \* a Get whose context is cancelled already: it may still hand out a batch (then it is a Get), or give up
+              IF ~Line.returned THEN UNCHANGED <<bs, pending, marks, cache, ready>>       \* giving up changes nothing: the wake-up stays
+              ELSE /\ pending' = Without(pending, Line.batch)
+                   /\ IF ready = 0 THEN UNCHANGED <<cache, ready>>
+                      ELSE IF Len(cache) < bs THEN cache' = cache /\ ready' = 0
+                      ELSE LET r == Extract(cache, marks, bs)
+                           IN cache' = r.cache /\ ready' = (IF r.ok /\ Len(r.cache) >= bs THEN 1 ELSE 0)
+                   /\ UNCHANGED <<bs, marks>>
          [] OTHER -> UNCHANGED <<bs, pending, marks, cache, ready>>
 Spec == Init /\ [][Step]_vars
 
@@ -47,6 +55,7 @@ PropertyStep ==
     CASE Line.op = "get" ->
            /\ Line.returned <=> IdealCanReturn(pending, marks, bs)     \* returns as soon as enough fresh commands are present, else blocks
            /\ Line.returned => Line.batch = IdealBatch(pending, marks, bs)   \* full, oldest fresh, arrival order, none stale
+      [] Line.op = "cget" -> Line.returned => (IdealCanReturn(pending, marks, bs) /\ Line.batch = IdealBatch(pending, marks, bs))
       [] Line.op = "conc" -> ConcOK(Line)
       [] OTHER -> TRUE
 ConformStep ==
@@ -55,6 +64,9 @@ ConformStep ==
            LET r == Extract(cache, marks, bs)
            IN /\ Line.returned <=> (ready = 1 /\ Len(cache) >= bs /\ r.ok)
               /\ Line.returned => Line.batch = r.batch
+      [] Line.op = "cget" ->
+           LET r == Extract(cache, marks, bs)
+           IN Line.returned => (ready = 1 /\ Len(cache) >= bs /\ r.ok /\ Line.batch = r.batch)
       [] OTHER -> TRUE
 PropertyOK == [][PropertyStep]_vars
 ConformsToModel == [][ConformStep]_vars
